@@ -424,7 +424,8 @@ def run_check(mod, tier, verif_seed, jobs):
         for s in range(0, n, per):
             tasks.append((mod.__name__, prop, name, verif_seed, idxs[s:s + per], tier, deadline, known_sigs, hang_s))
     # interleave scenarios so a budget cut hits all of them evenly
-    tasks.sort(key=lambda t: (t[4][0] / max(1, dict(scen)[t[2]]), t[2]))
+    heavy = list(getattr(mod, "HEAVY", []))
+    tasks.sort(key=lambda t: (0 if t[2] in heavy else 1, t[4][0] / max(1, dict(scen)[t[2]]), t[2]))
     results = []
     harness = None
     try:
@@ -442,8 +443,12 @@ def run_check(mod, tier, verif_seed, jobs):
 
     # determinism spot check: first 2 indices of every scenario again, in this (other) process
     if harness is None:
-        for name, n in scen:
+        t_spot = time.time() + (8 if tier == "quick" else 60)
+        heavy = list(getattr(mod, "HEAVY", []))
+        for name, n in sorted(scen, key=lambda s: s[0] in heavy):
             for i in range(min(2, n)):
+                if time.time() > t_spot:
+                    break
                 ref = next((r for r in executed if r["scenario"] == name and r["i"] == i), None)
                 if ref is None:
                     continue
